@@ -1180,7 +1180,7 @@ std::vector<double> Eigenvalues(const Matrix& M)
 				for(unsigned int k = j + 1; k < A.Rows(); k++)
 					off_diagonal_sum += fabs(A[k][j]);
 			}
-			if(off_diagonal_sum / eigenvalues_sum < 1.0e-12)
+			if(off_diagonal_sum == 0.0 || off_diagonal_sum / eigenvalues_sum < 1.0e-12)
 			{
 				std::vector<double> eigenvalues(A.Rows());
 				for(unsigned int j = 0; j < eigenvalues.size(); j++)
